@@ -155,14 +155,11 @@ AclUnsafeKF ==
   ELSE IF \A s \in SafeSlots : \A p \in Unsafe(s) : H2(s, p) \/ K2(s) \/ SharedOld(s) THEN "IosSharedAcl"
   ELSE ""
 
-\* known findings on secondary attributes: remarks next to block borders, and lines that
-\* differ only in the log attribute are treated as moved lines
+\* known finding on a secondary attribute: remarks next to block borders
 HasRemark(q) == \E i \in DOMAIN q : q[i].act = "remark"
 LogVariant(o, n) == \E i \in DOMAIN o, j \in DOMAIN n : SameLine(o[i], n[j]) /\ o[i] # n[j]
 KF_Cosmetic ==
-  IF \E s \in SafeSlots : HasRemark(OldOf(s)) \/ HasRemark(NewOf(s)) THEN "IosRemark"
-  ELSE IF \E s \in SafeSlots : LogVariant(OldOf(s), NewOf(s)) THEN "IosLogMove"
-  ELSE ""
+  IF \E s \in SafeSlots : HasRemark(OldOf(s)) \/ HasRemark(NewOf(s)) THEN "IosRemark" ELSE ""
 
 RouteUnsafe ==
   \E v \in TVrfs : \E r \in DRoute : /\ r.vrf = v /\ (\E q \in TRoute : q.vrf = v /\ q.dst = r.dst)
